@@ -41,3 +41,19 @@ func TestDebugTrace(t *testing.T) {
 	}
 	fmt.Println("err:", err)
 }
+
+// TestDebugC10 prints the end state of the disturbed run of a C10 case file (development aid).
+func TestDebugC10(t *testing.T) {
+	if *flagReplay == "" || os.Getenv("VERIF_DEBUG") == "" {
+		t.Skip()
+	}
+	data, _ := os.ReadFile(*flagReplay)
+	var c c10Case
+	if err := json.Unmarshal(data, &c); err != nil {
+		t.Fatal(err)
+	}
+	c10DebugDump = true
+	defer func() { c10DebugDump = false }()
+	_, err := runC10(c.Script, c.Dist)
+	fmt.Println("err:", err)
+}
